@@ -427,6 +427,25 @@ def _dependent(op):
     return False
 
 
+def _ret_only(outcome):
+    """The call's own outcome, without the harness's bookkeeping keys."""
+    return {k: v for k, v in outcome.items() if k in ("ok", "raised")}
+
+
+def settings_only_prefix(ops, raised):
+    """create (never parsing) + the config assignments that took effect."""
+    create = copy.deepcopy(ops[0])
+    if create["cls"] == "PLSSDesc":
+        create["kw"]["wait_to_parse"] = True
+    else:
+        create["kw"]["parse_qq"] = False
+    out = [create]
+    for k in range(1, len(ops)):
+        if ops[k]["op"] == "set_config" and not raised[k]:
+            out.append(ops[k])
+    return out
+
+
 def normal_form(ops, raised, all_parsed=None):
     """
     N(H): the sub-history a freshly constructed object needs in order to be in
@@ -584,7 +603,7 @@ def check_plan(plan):
         for j, k in enumerate(idx):
             if k is None or k == 0 or k not in last_parse[-1:]:
                 continue
-            a, b = h["outcomes"][k], n["outcomes"][j]
+            a, b = _ret_only(h["outcomes"][k]), _ret_only(n["outcomes"][j])
             path, oo = compare(a, b, exact=False)
             if path is not None:
                 failures.append({
@@ -599,10 +618,15 @@ def check_plan(plan):
         nc = [k for k in range(1, len(ops))
               if ops[k]["op"] == "parse" and not ops[k]["commit"]]
         for k in nc[:2]:
-            pre, _ = normal_form(ops[:k], raised[:k], all_parsed[:k])
+            # What a dry run returns is a function of the text and of the
+            # settings in force -- never of what was committed before.  So
+            # the reference object is one that has the same settings but has
+            # never parsed anything: creation (told not to parse) plus the
+            # config assignments made so far.
+            pre = settings_only_prefix(ops[:k], raised[:k])
             t = fork_call(run_history, (pre + [ops[k]], False))
             execs += 1
-            a, b = h["outcomes"][k], t["outcomes"][-1]
+            a, b = _ret_only(h["outcomes"][k]), _ret_only(t["outcomes"][-1])
             path, oo = compare(a, b, exact=False)
             bump("ret_twin_checked")
             if path is not None:
